@@ -523,6 +523,10 @@ structure St where
   hi : Nat := 1
   /-- ghost: a journal `Write`/`Sync` of the write path has failed at some time (its record may sit in a journal) -/
   everFailed : Bool := false
+  /-- ghost: the edit of a commit that was reported as failed although the manifest `CURRENT` names may show it (an
+      append that failed with effect, a failed `Sync`, a `SetMeta` that failed with effect): the storage is one edit
+      ahead of the session until the next successful `newManifest` -/
+  limbo : Option MRec := none
 deriving DecidableEq, Repr
 
 inductive Act
@@ -634,7 +638,7 @@ def Job.afterTables (j : Job) : JPc :=
     stays as it is -/
 def giveUp (s : St) : St :=
   { s with phase := .crashed, w := .idle, job := none, recov := none, mem := [], frozen := none,
-           manifestFailed := false }
+           manifestFailed := false, limbo := none }
 
 /-- what `Job.pc = .done` leads to -/
 def finishJob (s : St) (j : Job) : St :=
@@ -703,7 +707,8 @@ def stepJob (cfg : Cfg) (s : St) (d : Disk) (j : Job) (rot : Bool) (o : Outcome)
         | some m =>
           -- `flushManifest`: `fillRecord(rec, false)`, write the record
           let d' := d.exec (.writeM m { e with nf := s.nextFile }) o
-          if o.failed then some (failTo { s with manifestFailed := true } j .append, d')
+          if o.failed then
+            some (failTo { s with manifestFailed := true, limbo := if o = .failEffect then some e else s.limbo } j .append, d')
           else some (goto (if cfg.editSyncedBeforeJournalRemoval then .sync else .earlyRm) s, d')
   | .earlyRm =>
     some (goto .sync s, j.rmJournals.foldl (fun d n => d.apply (.remove .journal n)) d)
@@ -726,22 +731,23 @@ def stepJob (cfg : Cfg) (s : St) (d : Disk) (j : Job) (rot : Bool) (o : Outcome)
       -- names the new manifest, or fails: `manifestFailed` is set, the commit fails all the same (the repair of D26);
       -- otherwise (or in the code as found) the file is removed
       let keep := cfg.cleanupChecksCurrent && (if rot then cfg.cleanupKeepsWhenGetMetaFails else decide (o = .failEffect))
-      if keep then some (failTo { s with manifestFailed := true } j .append, d')
+      if keep then
+        some (failTo { s with manifestFailed := true, limbo := if o = .failEffect then j.edit else s.limbo } j .append, d')
       else some (failTo s j .append, d'.apply (.remove .manifest m))
-    else some (goto (if cfg.manifestSyncedBeforeSetMeta then .rotRemove m else .rotSync m) s, d')
+    else some (goto (if cfg.manifestSyncedBeforeSetMeta then .rotRemove m else .rotSync m) { s with limbo := none }, d')
   | .rotRemove m =>
     -- `recordCommited`; close and remove the old manifest (an error is only logged: the new manifest is in
     -- effect, the repair of D27); adopt the new one
     let d' := match s.manifestFd with
       | some old => d.exec (.remove .manifest old) o
       | none => d
-    some (goto .install { s with manifestFd := some m, manifestOpen := true, manifestFailed := false }, d')
+    some (goto .install { s with manifestFd := some m, manifestOpen := true, manifestFailed := false, limbo := none }, d')
   | .sync =>
     match s.manifestFd with
     | none => none
     | some m =>
       let d' := d.exec (.sync .manifest m) o
-      if o.failed then some (failTo { s with manifestFailed := true } j .append, d')
+      if o.failed then some (failTo { s with manifestFailed := true, limbo := j.edit } j .append, d')
       else some (goto .install s, d')
   | .install =>
     match j.edit with
@@ -969,6 +975,18 @@ def Act.noD10 (s : St) : Act → Bool
     | some j =>
       match j.pc with
       | .append => rot || !s.manifestOpen || s.manifestFailed || o != .failEffect
+      | .sync => o == .ok
+      | _ => true
+    | none => true
+  | _ => true
+
+/-- the manifest `Sync` of a commit does not fail (the second shape of D10: the record is in the file, durable or
+    not, the commit is reported as failed; `C08.fault_safe_full_partial` does not cover it) -/
+def Act.noSyncFault (s : St) : Act → Bool
+  | .job _ o =>
+    match s.job with
+    | some j =>
+      match j.pc with
       | .sync => o == .ok
       | _ => true
     | none => true
